@@ -477,3 +477,91 @@ func retResults(ret *ssa.Return) []ssa.Value {
 	}
 	return out
 }
+
+// ---------------------------------------------------------------------------
+// path enumeration (small acyclic regions)
+
+type cfgEdge struct {
+	From *ssa.BasicBlock
+	Succ int
+}
+
+// Cond returns the condition and outcome of taking this edge, or nil.
+func (e cfgEdge) Cond() (ssa.Value, bool) {
+	iff := ifOf(e.From)
+	if iff == nil {
+		return nil, false
+	}
+	return iff.Cond, e.Succ == 0
+}
+
+// enumPaths lists every simple path (no block visited twice) from start to
+// goal as edge lists. ok is false if more than limit paths exist.
+func enumPaths(start, goal *ssa.BasicBlock, limit int) (paths [][]cfgEdge, ok bool) {
+	ok = true
+	onPath := map[*ssa.BasicBlock]bool{}
+	var cur []cfgEdge
+	var walk func(b *ssa.BasicBlock)
+	walk = func(b *ssa.BasicBlock) {
+		if !ok {
+			return
+		}
+		if b == goal {
+			if len(paths) >= limit {
+				ok = false
+				return
+			}
+			paths = append(paths, append([]cfgEdge(nil), cur...))
+			return
+		}
+		onPath[b] = true
+		for i, s := range b.Succs {
+			if onPath[s] {
+				continue
+			}
+			cur = append(cur, cfgEdge{b, i})
+			walk(s)
+			cur = cur[:len(cur)-1]
+		}
+		onPath[b] = false
+	}
+	walk(start)
+	return paths, ok
+}
+
+func (w *World) edgesString(path []cfgEdge) string {
+	var parts []string
+	for _, e := range path {
+		cond, outcome := e.Cond()
+		if cond == nil {
+			continue
+		}
+		parts = append(parts, fmt.Sprintf("%s=%v@%s", condDesc(cond), outcome, w.Pos(e.From.Instrs[len(e.From.Instrs)-1].Pos())))
+	}
+	return strings.Join(parts, " ; ")
+}
+
+func condDesc(v ssa.Value) string {
+	switch x := v.(type) {
+	case *ssa.BinOp:
+		return "(" + valueDesc(x.X) + " " + x.Op.String() + " " + valueDesc(x.Y) + ")"
+	case *ssa.Call:
+		return calleeName(x) + "(...)"
+	}
+	return valueDesc(v)
+}
+
+// closureFn returns the anonymous function behind a closure value: a
+// MakeClosure, or the bare function when it captures nothing.
+func closureFn(v ssa.Value) *ssa.Function {
+	switch x := v.(type) {
+	case *ssa.MakeClosure:
+		fn, _ := x.Fn.(*ssa.Function)
+		return fn
+	case *ssa.Function:
+		if x.Parent() != nil {
+			return x
+		}
+	}
+	return nil
+}
